@@ -9,14 +9,15 @@ from .bmc import ThreadProg, System, BV, W
 
 
 def build(prog, npipes, cap, ready_cap, items_per_producer, consumer_calls, producer_modes=("send", "try_send"),
-          consumer_modes=("pop", "try_pop"), last_call_blocking=True, max_ops=None, pop_ops=None):
+          consumer_modes=("pop", "try_pop"), last_call_blocking=True, max_ops=None, pop_ops=None, batch=False):
     setup = rpq.setup(npipes, cap, ready_cap)
     trees, functions = {}, set()
     def tree(kind, *a):
         key = (kind,) + a
         if key not in trees:
-            call = {"send": rpq.call_send, "try_send": rpq.call_try_send, "pop": lambda: rpq.call_pop(), "try_pop": lambda: rpq.call_try_pop()}[kind](*a)
-            mo = {"send": 8, "try_send": 7, "pop": pop_ops or (4 + 2 * (npipes * items_per_producer)), "try_pop": 8}[kind]
+            call = {"send": rpq.call_send, "try_send": rpq.call_try_send, "try_send_batch": rpq.call_try_send_batch,
+                    "pop": lambda: rpq.call_pop(), "try_pop": lambda: rpq.call_try_pop()}[kind](*a)
+            mo = {"send": 8, "try_send": 7, "try_send_batch": 6 + 2 * items_per_producer, "pop": pop_ops or (4 + 2 * (npipes * items_per_producer)), "try_pop": 8}[kind]
             trees[key] = extract_call(prog, setup, call, kind, max_ops=mo, max_paths=3000)
             trees[key].name = kind
             functions.update(trees[key].functions)
@@ -24,9 +25,14 @@ def build(prog, npipes, cap, ready_cap, items_per_producer, consumer_calls, prod
     threads = []
     for p in range(npipes):
         t = ThreadProg(f"prod{p}", "producer")
-        for k in range(items_per_producer):
-            item = 10 * (p + 1) + k
-            t.add_call([tree(m, p, item) for m in producer_modes])
+        if batch:
+            # one batched enqueue of all items, or (solver's choice) the items one by one is a different scenario
+            items = tuple(10 * (p + 1) + k for k in range(items_per_producer))
+            t.add_call([tree("try_send_batch", p, items)])
+        else:
+            for k in range(items_per_producer):
+                item = 10 * (p + 1) + k
+                t.add_call([tree(m, p, item) for m in producer_modes])
         threads.append(t)
     c = ThreadProg("cons", "consumer")
     for i in range(consumer_calls):
